@@ -129,6 +129,8 @@ class Gen:
 		for _ in range(nops):
 			c = rng.choices(cats, weights)[0]
 			getattr(self, "op_" + c)()
+		if prop in ("C02", "C12") and rng.random() < 0.04:
+			self.op_period()
 		# let every queued burst reach its frame, fault-free
 		self.ops.append({"op": "idle", "dt": (self.max_adv + 3) * P_NS})
 		cfg = {"trx": trx, "clck_start": start, "ind_period": period, "bind_addr": rng.choice(["0.0.0.0", "0.0.0.0", "127.0.0.1", "10.9.8.7"]), "mode": "coarse"}
@@ -458,6 +460,31 @@ class Gen:
 		if rng.random() < 0.1:
 			op["src"] = 50000 + rng.randrange(100)
 		self.ops.append(op)
+
+	def op_period(self):
+		"""A traffic pattern, then the same pattern again exactly one superframe (1326 frames: the
+		period of T2 and T3) later under the same configuration: frame numbers congruent modulo
+		1326 recur, while the hopping sequence (which also depends on T1 mod 64) differs —
+		whatever is remembered per frame number modulo a GSM period shows."""
+		rng = self.rng
+		n = len(self.trx)
+		pattern = []
+		for _ in range(rng.randint(4, 10)):
+			pattern.append({"trx": rng.randrange(n), "adv": rng.randint(1, 6), "tn": rng.randrange(8),
+				"pwr": rng.choice([0, 0, 10]), "kind": rng.choice(["NB", "RAND", "SB"]), "dt": rng.choice([1000, P_NS // 2, P_NS + 1000])})
+		if rng.random() < 0.7:
+			self.op_tune()
+		span = 0
+		for rep in range(2):
+			for b in pattern:
+				self.ops.append({"op": "burst", "trx": b["trx"], "adv": b["adv"], "tn": b["tn"], "pwr": b["pwr"], "kind": b["kind"],
+					"bseed": rng.randrange(1 << 30), "ver": self.st[b["trx"]]["ver"], "dt": b["dt"]})
+				span += b["dt"]
+			if rep == 0:
+				# the clock generator's period is 4 614 999 ns (clck_gen.py computes it in floating point)
+				k = rng.choice([1, 1, 1, 2])
+				self.ops.append({"op": "idle", "dt": k * 1326 * 4_614_999 - span})
+		self.max_adv = max(self.max_adv, 6)
 
 	def op_restart(self):
 		"""Everything off (the shared clock stops), back on, a traffic pattern — twice, with a
